@@ -104,8 +104,25 @@ func corsOrigins() []string {
 }
 
 type corsWorld struct {
-	c   *restful.Container
-	log *[]string
+	c      *restful.Container
+	log    *[]string
+	ws     *restful.WebService
+	hasPut bool
+	hnd    func(id string) restful.RouteFunction
+}
+
+// mutate applies a route mutation to the (dynamic) service: "unroute-put" / "route-put" on /u1.
+func (w *corsWorld) mutate(op string) {
+	switch op {
+	case "unroute-put":
+		w.ws.RemoveRoute("/u1", "PUT")
+		w.hasPut = false
+	case "route-put":
+		if !w.hasPut {
+			w.ws.Route(w.ws.PUT("/u1").To(w.hnd("PUT u1")))
+			w.hasPut = true
+		}
+	}
 }
 
 // corsBuild builds the container; withFilter=false gives the filter-less twin.
@@ -115,7 +132,7 @@ func corsBuild(cfg corsCfg, withFilter bool) corsWorld {
 		c.Router(restful.RouterJSR311{})
 	}
 	var log []string
-	w := corsWorld{c, &log}
+	w := corsWorld{c: c, log: &log, hasPut: true}
 	cors := restful.CrossOriginResourceSharing{AllowedDomains: cfg.Domains, AllowedDomainFunc: cfg.predicate(), CookiesAllowed: cfg.Cookies,
 		ExposeHeaders: cfg.Expose, MaxAge: cfg.MaxAge, AllowedMethods: cfg.Methods, AllowedHeaders: cfg.Headers, Container: c}
 	after := func(name string) restful.FilterFunction {
@@ -125,6 +142,8 @@ func corsBuild(cfg corsCfg, withFilter bool) corsWorld {
 		}
 	}
 	ws := new(restful.WebService).Path("/")
+	ws.SetDynamicRoutes(true)
+	w.ws = ws
 	if withFilter {
 		if cfg.Service {
 			ws.Filter(cors.Filter)
@@ -143,6 +162,7 @@ func corsBuild(cfg corsCfg, withFilter bool) corsWorld {
 			io.WriteString(resp, id)
 		}
 	}
+	w.hnd = hnd
 	ws.Route(ws.GET("/u1").To(hnd("GET u1")))
 	ws.Route(ws.PUT("/u1").To(hnd("PUT u1")))
 	ws.Route(ws.POST("/u1").To(hnd("POST u1")))
